@@ -1,5 +1,6 @@
 import Spydr.IO.Props.C15
 import Spydr.IO.Props.C15Resolve
+import Spydr.IO.Props.C15Readers
 import Spydr.IO.Props.C16
 #print axioms Spydr.IO.read_policy_restored
 #print axioms Spydr.IO.read_outcome
@@ -30,3 +31,9 @@ import Spydr.IO.Props.C16
 #print axioms Spydr.IO.resolve_iff_wellScoped
 #print axioms Spydr.IO.resolution_unique
 #print axioms Spydr.IO.edifify_keeps_existing
+#print axioms Spydr.IO.c15_edif_accepts_wellformed
+#print axioms Spydr.IO.c15_edif_all_instances_referenced
+#print axioms Spydr.IO.c15_edif_names_everything
+#print axioms Spydr.IO.c15_verilog_accepts_wellformed
+#print axioms Spydr.IO.c15_eblif_pin_mirror
+#print axioms Spydr.IO.c15_eblif_self_contained
